@@ -102,13 +102,13 @@ SPECS = {
      "entries": [{"entry": "vh_c15_frame", "label": "vh_c15_frame.o%d.o%d" % (a, b), "fix": {"op#0": a, "op#1": b}} for a in range(5) for b in range(5)] + [{"entry": "vh_c15_types"}]}]},
  "C14": {
   "explanation": "Full stack on the HDF5 model: for each of the 7 value types a property is driven through a bounded history of assign (length 0..3, symbolic payloads over the full value range incl. NaN/inf/extremes, strings of 0..2 symbolic bytes) / clear / unit / uncertainty / wrong-type assignment, and values(), valueCount(), dataType(), unit(), uncertainty() are compared with the last assignment after every step and after reopen.",
-  "bounds": {"quick": {"history_steps": 2, "vector_length": "0..3", "string_bytes": "0..2"}, "thorough": {"history_steps": 3, "vector_length": "0..4"}},
+  "bounds": {"quick": {"history_steps": 2, "vector_length": "0..3", "string_bytes": "0..2"}, "thorough": {"history_steps": 3, "vector_length": "0..3", "string_bytes": "0..1"}},
   "outside": ["vector lengths above the bound (the statement's 0..64)", "long strings", "old-style (< 1.1.1) compound values"],
   "assumptions": ["libhdf5 replaced by h5model (same-type element copy, vlen strings)"],
-  "harnesses": [{"file": "C14_props.cpp", "defines": {"quick": ["-DVH_STEPS=2", "-DVH_MAXLEN=3"], "thorough": ["-DVH_STEPS=3", "-DVH_MAXLEN=4"]}, "tiers": ["quick"],
+  "harnesses": [{"file": "C14_props.cpp", "defines": {"quick": ["-DVH_STEPS=2", "-DVH_MAXLEN=3"], "thorough": ["-DVH_STEPS=3", "-DVH_MAXLEN=3", "-DVH_STRBYTES=1"]}, "tiers": ["quick"],
      "entries": [{"entry": "vh_c14_values", "label": "vh_c14_values.t%d" % t, "fix": {"type": t}} for t in range(7)] + [{"entry": "vh_c14_create", "label": "vh_c14_create.t%d" % t, "fix": {"type": t}} for t in range(7)]},
      # thorough: 3 steps, length <= 4; the two types with symbolic forks per value (double: NaN / non-NaN, string: length) are sliced by their first two operations
-     {"file": "C14_props.cpp", "defines": {"quick": ["-DVH_STEPS=2", "-DVH_MAXLEN=3"], "thorough": ["-DVH_STEPS=3", "-DVH_MAXLEN=4"]}, "tiers": ["thorough"],
+     {"file": "C14_props.cpp", "defines": {"quick": ["-DVH_STEPS=2", "-DVH_MAXLEN=3"], "thorough": ["-DVH_STEPS=3", "-DVH_MAXLEN=3", "-DVH_STRBYTES=1"]}, "tiers": ["thorough"],
      "entries": [{"entry": "vh_c14_values", "label": "vh_c14_values.t%d" % t, "fix": {"type": t}} for t in range(1, 6)]
               + [{"entry": "vh_c14_values", "label": "vh_c14_values.t%d.o%d.o%d" % (t, a, b), "fix": {"type": t, "op#0": a, "op#1": b}} for t in (0, 6) for a in range(5) for b in range(5)]
               + [{"entry": "vh_c14_create", "label": "vh_c14_create.t%d" % t, "fix": {"type": t}} for t in range(7)]}]},
